@@ -15,8 +15,9 @@ META = {
               'covering set (quick) on Grid2D (2,2), PolarGrid2D (2,2), CylindricalGrid1D N=2, Grid3D (2,2,2); both construction styles (BCs passed '
               'in or defaulted); followed by an implicit or explicit solve compared entry by entry (captured system, stored values, ghost layer) '
               'with a variable freshly constructed from the visible state',
-    'outside': 'longer histories (no inductive invariant is claimed: the shared-BC-object finding shows the natural candidate "a dirty bit is set '
-               'or the cache is fresh" is not inductive across variables); random histories beyond the bound',
+    'outside': 'longer histories beyond the fixed-seed random set (200 quick / 1220 thorough histories of length 3..7 on Grid1D N=3, Grid2D (2,3), '
+               'CylindricalGrid2D (3,2), Grid3D (1,2,3)); no inductive invariant is claimed: the shared-BC-object finding shows the natural '
+               'candidate "a dirty bit is set or the cache is fresh" is not inductive across variables',
     'assumptions': ['visible state = interior values, (a, b, c) arrays and periodic flags of the variable\'s BC object'],
     'trusted_base': [],
     'rule': 'one state = the pair (variable, BC object) after a prefix of a history; one transition = one operation of the alphabet; a history is '
@@ -273,4 +274,17 @@ def scenarios(tier):
         for final, style in ((('implicit', 'passed'), ('explicit', 'default')) if tier == 'quick' else
                              (('implicit', 'passed'), ('implicit', 'default'), ('explicit', 'passed'), ('explicit', 'default'))):
             add(g, dims, s1 + s2, final, style, chunk=20 if len(dims) == 3 else 40)
+    # random longer histories (fixed seed: the set is the same on every run; every value written is still a fresh symbol)
+    import random
+    rnd = random.Random(20260924)
+    for g, dims, cnt in ((('Grid1D', [3], 160), ('Grid2D', [2, 3], 40)) if tier == 'quick' else
+                         (('Grid1D', [3], 800), ('Grid2D', [2, 3], 240), ('CylindricalGrid2D', [3, 2], 120), ('Grid3D', [1, 2, 3], 60))):
+        al = alphabet(g, dims)
+        seqs = [[rnd.choice(al) for _ in range(rnd.randint(3, 7))] for _ in range(cnt)]
+        for final, style in (('implicit', 'passed'), ('explicit', 'default')):
+            half = seqs[:cnt // 2] if final == 'implicit' else seqs[cnt // 2:]
+            for k in range(0, len(half), 20):
+                T.append({'name': 'random/%s/%s/%s/%d' % (g, final, style, k // 20), 'fn': 'pv.props.c09:histories',
+                          'params': {'g': g, 'dims': dims, 'seqs': half[k:k + 20], 'final': final, 'style': style}, 'timeout': 30,
+                          'validate': 1, 'batch': 12})
     return T
